@@ -24,6 +24,16 @@ Clause labels -> sentence of the property
   markdown_verbatim    "Its Markdown rendering keeps every binding line verbatim"
 Every clause is evaluated "with or without dynamic registration and for any line width
 larger than the continuation indent" (case fields `mode`, `widths`).
+
+Histories (case field `history`, dynamic registration; quantifier "configurations reachable
+by parsing ... histories"): (a) a first file imports module M1 and binds values holding
+`@references` (plain and evaluated) into M1; (b) config_str() is called and/or repr()/hash()
+of every stored reference is taken; (c) a second file imports a different module M2 whose
+bound name equals that of M1's import, and binds into M2 -- when M2 sorts before M1 the
+import manager must now re-alias M1's import and spell M1's references through the new alias;
+(d) config_str() must still serialise, parse into a cleared configuration, restore the
+bindings of both files (references are compared by the function they resolve to) and
+re-serialise identically.  The expected bindings come from the descriptors of the two files.
 """
 import itertools
 import re
@@ -43,7 +53,12 @@ BOUNDS = ('configurations of <= 5 bindings with distinct keys over 8 configurabl
           '(quick) / 8 (thorough) pairs (max_line_length, continuation_indent) with indent in '
           '{0,1,2,4,8} and indent < length <= 120, always (80, 4) and one length = indent + 1. '
           'Six input shapes on which /repo is known to fail (see _features and the end of '
-          '_corner_cases) occur only as fixed corner cases, not in the sampled part.')
+          '_corner_cases) occur only as fixed corner cases, not in the sampled part.  Histories '
+          'under dynamic registration: two parsed files whose imports (5 pairs of import forms x '
+          'either order of 2 same-named synthetic modules) bind the same name, <= 4 bindings each '
+          'over 5 configurables per module with values of depth <= 2 holding references, between '
+          'them one of 6 probe sequences over {config_str, repr, hash} of the stored references: '
+          '60 fixed + 60 (quick) / 1500 (thorough) sampled.')
 EXHAUSTIVE = {'quick': False, 'thorough': False}
 
 # ---------------------------------------------------------------- the universe
@@ -98,6 +113,25 @@ IMPORT_FORMS = {  # form -> (statement, prefix under which the module's names ar
     'clash': lambda m: ('from %s import %s as vq_top' % tuple(m.rsplit('.', 1)), 'vq_top'),
 }
 _ALL_SELECTORS = ['%s.%s' % v[:2] for v in TARGETS.values()] + ['gin.macro', 'gin.constant']
+
+
+# Histories: two modules with the same last name; the first one sorts after the second.
+H_MODS = ['vq_zed.shared', 'vq_abc.shared']
+H_NAMES = ['fa', 'Foo', 'foo', 'gg', 'Cls']
+for _m in H_MODS:
+  for _n in H_NAMES:
+    _NAME_OF[id(getattr(_module(_m), _n))] = '%s_%s' % (_m.split('.')[0][3:], _n)
+# pair -> (first import, its prefix, second import, its prefix); {m} module, {p} its package,
+# {q} the package of the other file's module
+H_PAIRS = {
+    'from_from': ('from {p} import shared', 'shared', 'from {p} import shared', 'shared'),
+    'as_as': ('import {m} as sh', 'sh', 'import {m} as sh', 'sh'),
+    'from_vs_as': ('from {p} import shared', 'shared', 'import {m} as shared', 'shared'),
+    'fromas_fromas': ('from {p} import shared as sh', 'sh', 'from {p} import shared as sh', 'sh'),
+    'plain_vs_as': ('import {m}', '{m}', 'import {m} as {q}', '{q}'),
+}
+H_PROBES = [['config_str', 'repr', 'hash'], ['repr', 'config_str'], ['config_str'], ['hash'],
+            ['repr', 'hash', 'config_str', 'config_str'], []]
 
 
 class _Repr:
@@ -395,9 +429,59 @@ def _corner_cases():
     yield make('static', [('', 't_gg', 'x', obj(kind)), ('', 't_gg', 'y', one)], [[0, 1]])
 
 
+def _hb(file, scope, target, param, value):
+  return {'file': file, 'scope': scope, 'target': target, 'param': param, 'value': value}
+
+
+def _history_fixed():
+  ref = lambda t, scope='', ev=False: ['r', scope, t, 0, ev]
+  first = [_hb(1, '', 'gg', 'x', ref('fa', '', True)), _hb(1, '', 'fa', 'x', ['i', 3]),
+           _hb(1, '', 'gg', 'y', ['l', [ref('Foo', 'a'), ['i', 1]]]),
+           _hb(1, 'a/b', 'gg', 'z', ['d', [[['s', 'k1'], ref('Cls')], [['i', 3], ref('foo', 'B/a', True)]]])]
+  second = [_hb(2, '', 'fa', 'x', ['i', 5]), _hb(2, '', 'gg', 'z', ref('foo')),
+            _hb(2, 'a', 'gg', 'x', ['t', [ref('fa', '', True), ['s', 'abc']]])]
+  for pair in H_PAIRS:
+    for probe in H_PROBES:
+      for mods in (H_MODS, H_MODS[::-1]):   # re-alias of the first import / of the second one
+        yield {'mode': 'dynamic', 'history': {'mods': mods, 'pair': pair, 'probe': probe},
+               'bindings': first + second, 'widths': [[80, 4], [5, 4], [1, 0]]}
+
+
+def _gen_hvalue(rng, depth):
+  r = rng.random()
+  if depth < 2 and r < 0.3:
+    kind, n = rng.choice('ltd'), rng.choice([1, 1, 2, 3])
+    if kind == 'd':
+      return ['d', [[k, _gen_hvalue(rng, depth + 1)] for k in rng.sample(DICT_KEYS, n)]]
+    return [kind, [_gen_hvalue(rng, depth + 1) for _ in range(n)]]
+  if r < 0.75:
+    return ['r', rng.choice(SCOPES), rng.choice(H_NAMES), 0, rng.random() < 0.5]
+  return rng.choice(LEAVES)
+
+
+def _gen_history(rng, tier):
+  bindings, keys = [], set()
+  for file in (1, 2):
+    for _ in range(rng.randint(1, 4)):
+      key = (file, rng.choice(SCOPES), rng.choice(H_NAMES), rng.choice('xy'))
+      if key not in keys:
+        keys.add(key)
+        bindings.append(_hb(*key, _gen_hvalue(rng, 0)))
+  if not any(d[0] == 'r' for b in bindings if b['file'] == 1 for d in _walk(b['value'])):
+    bindings[0]['value'] = ['r', '', 'fa', 0, True]
+  ind = rng.choice([0, 1, 2, 4, 8])
+  return {'mode': 'dynamic', 'bindings': bindings, 'widths': [[80, 4], [rng.randint(ind + 1, 120), ind]],
+          'history': {'mods': H_MODS if rng.random() < 0.75 else H_MODS[::-1],
+                      'pair': rng.choice(sorted(H_PAIRS)), 'probe': rng.choice(H_PROBES)}}
+
+
 def cases(tier, rng):
   for case in _corner_cases():
     yield case
+  for case in _history_fixed():
+    yield case
+  for _ in range(60 if tier == 'quick' else 1500):
+    yield _gen_history(rng, tier)
   for _ in range(500 if tier == 'quick' else 6000):
     yield _gen_case(rng, tier)
   for _ in range(20 if tier == 'quick' else 300):
@@ -510,9 +594,85 @@ def _markdown(text):
   return [] if want == got else [[l for l in want if l not in got][:2], len(want), len(got)]
 
 
+def _history_text(case, file):
+  """The text of the first / second file, and the module it binds into."""
+  h = case['history']
+  mod, other = h['mods'][file - 1], h['mods'][2 - file]
+  fmt = dict(m=mod, p=mod.split('.')[0], q=other.split('.')[0])
+  stmt, prefix = (x.format(**fmt) for x in H_PAIRS[h['pair']][2 * file - 2:2 * file])
+  spell = lambda target, i: prefix + '.' + target
+  lines = ['from __gin__ import dynamic_registration', stmt]
+  for b in case['bindings']:
+    if b['file'] == file:
+      lines.append('%s%s.%s = %s' % (b['scope'] + '/' * bool(b['scope']), spell(b['target'], 0),
+                                     b['param'], _source(b['value'], spell)))
+  return '\n'.join(lines) + '\n', mod
+
+
+def _stored_references():
+  return [r for _, r in sorted(((repr(k), r) for k, v in gc._CONFIG.items() for r in
+                               gc.iterate_references(v)), key=lambda kr: kr[0])]
+
+
+def _check_history(case, fail, attempt):
+  h = case['history']
+  expected = {}
+  for b in case['bindings']:   # names as in _NAME_OF: zed_fa, abc_Cls, ...
+    own = h['mods'][b['file'] - 1].split('.')[0][3:]
+    canon = _canon(b['value'])
+    _retarget(canon, own)
+    expected[(b['scope'], '%s_%s' % (own, b['target']), b['param'])] = canon
+  gin.parse_config(_history_text(case, 1)[0])                                    # (a)
+  for op in h['probe']:                                                          # (b)
+    if op == 'config_str':
+      attempt('serialises', gc.config_str)
+    else:
+      for r in _stored_references():
+        (repr if op == 'repr' else hash)(r)
+  gin.parse_config(_history_text(case, 2)[0])                                    # (c)
+  texts = [(w, i, attempt('serialises', gc.config_str, w, i)) for w, i in case['widths']]   # (d)
+  for w, i, text in texts:
+    if text is None:
+      continue
+    where = 'width=%d indent=%d' % (w, i)
+    for p in _structure(text):
+      fail('grouped_sorted', 'one sorted section per configurable', p + ' ' + where, p.split(':')[0][:40])
+    gin.clear_config()
+    if attempt('always_parses', gc.parse_config, text, note=where) is None:
+      continue
+    observed = _observed()
+    for key in sorted(set(expected) | set(observed), key=repr):
+      if expected.get(key) != observed.get(key):
+        kind = 'lost' if key not in observed else 'extra' if key not in expected else 'changed'
+        fail('roundtrip_bindings', [key, expected.get(key)], [observed.get(key), where],
+             '%s binding of a %s' % (kind, (expected.get(key) or observed.get(key))[0]))
+    missing = sorted(set(h['mods']) - {m for m, _, _ in _imports()})
+    if missing:
+      fail('roundtrip_imports', h['mods'], _imports(), 'recorded import missing or rewritten')
+    again = attempt('serialises', gc.config_str, w, i)
+    if again is not None and again != text:
+      fail('reserialise_identical', text, again, 'second serialisation differs')
+
+
+def _retarget(canon, own):
+  """References of a history file point into that file's module: fa -> zed_fa / abc_fa."""
+  if canon[0] == 'ref':
+    canon[2] = '%s_%s' % (own, canon[2])
+  elif canon[0] in 'lt':
+    for x in canon[1]:
+      _retarget(x, own)
+  elif canon[0] == 'd':
+    for kv in canon[1]:
+      for x in kv:
+        _retarget(x, own)
+
+
 def check(case):
   fails = []
-  feat = ' '.join(_features(case))
+  feat = ' '.join(_features(case)) if 'history' not in case else (
+      'dynamic history_of_two_files realiased_import=%s references_probed_between=%s' % (
+          'first' if case['history']['mods'] == H_MODS else 'second',
+          'yes' if case['history']['probe'] else 'no'))
 
   def fail(clause, expected, observed, sig):
     sig = '%s: %s [%s]' % (clause, sig, feat)
@@ -528,6 +688,9 @@ def check(case):
       fail(clause, 'no exception', '%s: %s %s' % (type(e).__name__, e, note), 'exc=' + type(e).__name__)
       return None
 
+  if 'history' in case:
+    _check_history(case, fail, attempt)
+    return fails
   for name, d in CONSTS.items():
     gin.constant(name, _python(d, None))
   late = case.get('late', [])
